@@ -1179,6 +1179,63 @@ pub fn gen_crash_case(rng: &mut Rng) -> CrashCase {
 /// (2^256-37)/2 - 3 ..= +3, through every command that computes v, with both parities.
 pub const CHAIN_ENUM: usize = 7 * 8;
 
+/// Enumerated typed-data documents with one `intN` / `uintN` member at every boundary of its range
+/// (N = 8, 16, ..., 256; values 0, 2^(N-1)-1, 2^(N-1), 2^N-1, 2^N and their negatives, -2^(N-1)+-1;
+/// as a JSON number, a decimal string and a hex string). C17 asks only that the tool neither
+/// panics nor hangs on them (whether a value is in range is C09's business, not claimed).
+pub const TYPED_INT_ENUM: usize = 32 * 2 * 11 * 3;
+pub fn typed_int_boundary_case(idx: usize) -> CrashCase {
+    let spelling = idx % 3;
+    let kind = (idx / 3) % 11;
+    let signed = (idx / 33) % 2 == 1;
+    let bits = 8 * (1 + (idx / 66) % 32) as u32;
+    // (negative, magnitude as decimal text, magnitude as hex text)
+    let dec_hex = |v: U256| (format!("{v}"), format!("{v:x}"));
+    let two_n = || {
+        if bits == 256 {
+            (TWO_256.to_string(), format!("1{}", "0".repeat(64)))
+        } else {
+            dec_hex(pow2(bits))
+        }
+    };
+    let half = pow2(bits - 1);
+    let (neg, (dec, hx)) = match kind {
+        0 => (false, dec_hex(U256::ZERO)),
+        1 => (false, dec_hex(half - 1)),
+        2 => (false, dec_hex(half)),
+        3 => (false, dec_hex(if bits == 256 { U256::MAX } else { pow2(bits) - 1 })),
+        4 => (false, two_n()),
+        5 => (true, dec_hex(U256::ONE)),
+        6 => (true, dec_hex(half)),
+        7 => (true, dec_hex(half + 1)),
+        8 => (true, dec_hex(half - 1)),
+        9 => (true, dec_hex(if bits == 256 { U256::MAX } else { pow2(bits) - 1 })),
+        _ => (true, two_n()),
+    };
+    let sign = if neg { "-" } else { "" };
+    let value = match spelling {
+        0 => format!("{sign}{dec}"),
+        1 => format!("\"{sign}{dec}\""),
+        _ => format!("\"{sign}0x{hx}\""),
+    };
+    let ty = format!("{}int{bits}", if signed { "" } else { "u" });
+    let doc = format!(
+        "{{\"types\":{{\"EIP712Domain\":[{{\"name\":\"name\",\"type\":\"string\"}}],\"T\":[{{\"name\":\"v\",\"type\":\"{ty}\"}}]}},\"primaryType\":\"T\",\"domain\":{{\"name\":\"x\"}},\"message\":{{\"v\":{value}}}}}"
+    );
+    let mut cmd = Cmd {
+        argv: vec!["hash".into(), "typeddata".into(), "in.json".into()],
+        ..Cmd::default()
+    };
+    cmd.files.push(NamedFile {
+        name: "in.json".into(),
+        data: doc.into_bytes(),
+    });
+    CrashCase {
+        family: "typeddata".into(),
+        cmd,
+    }
+}
+
 pub fn chain_boundary_case(idx: usize) -> CrashCase {
     let delta = (idx / 8) as i64 - 3;
     let k = idx % 8;
